@@ -42,6 +42,14 @@ CLAIMED.update({
         ref="DESIGN.md#c18"),
 })
 
+CLAIMED["C01"] = dict(
+    text="Constructors of onedgrid.py are executed with exact arithmetic (cos(pi k/M) as exact algebraic numbers): Clenshaw-Curtis, Fejer-1/2, trapezoid, midpoint n=2..9 (quick)/2..20 and Simpson are "
+         "shown exact for ALL polynomials of the nominal degree (symbolic coefficients, one obligation per rule and n); the 7 variable-substitution rules satisfy weight_k = step*g'(k*step) for a symbolic step; "
+         "Trefethen polynomial and strip maps: derivative routines equal the derivative of the executed map (symbolic rho, s, incl. the end-point limit), class wiring; weight division of the Gauss rules around "
+         "stubbed node providers for symbolic alpha > -1; node count/order/domain for every rule.",
+    note="Gauss-Legendre/Laguerre/Chebyshev node VALUES come from LAPACK/SciPy and are outside (stub contract); closed cos(pi q) identities are decided by cyclotomic normalisation or z3 on the Chebyshev chain; known finding: FejerSecond; fixed: FejerFirst odd n",
+    ref="DESIGN.md#c01")
+
 NOT_APPLICABLE = {
     "C02": "no symbolic input: validating 450 shipped data files against harmonics up to degree 325 is floating-point enumeration of concrete runs, outside solver-based checking and outside solver reach (the table/lookup half is decided in C12)",
 }
